@@ -140,7 +140,8 @@ def loop_order_(imp, method, pred_re):
         # any test that returns Timeout / any argument of the wait: WHICH test and WHICH argument is the
         # clock fact below
         "deadline": r"if ([^{}]*) \{ (?:[^{}]*; )?return [\w:]*\(?[\w:]*Timeout\)?;? \}",
-        "park": r"\. ?wait_timeout\( ?\w+, ?([^(),]*)\)",
+        # the argument may be any expression (a clamp, a slice, an `if`): WHICH one is the clock fact
+        "park": r"\. ?wait_timeout\( ?\w+, ?(.*?) ?\) ?\. ?expect\(",
     }
     pos, grp = {}, {}
     for name, rx in forms.items():
@@ -174,7 +175,7 @@ def loop_order_(imp, method, pred_re):
     # once before the loop, …) is the pessimistic fact `false`.
     mnow = re.search(r"let now = (?:std::time::)?Instant::now\(\);", n)
     arg = grp["park"]
-    arg_ok = arg == "deadline - now" or (arg == "timeout" and re.search(r"let timeout = deadline - now;", n) is not None)
+    arg_ok = arg in ("deadline - now", "deadline.saturating_duration_since(now)", "deadline.duration_since(now)") or (arg == "timeout" and re.search(r"let timeout = deadline - now;", n) is not None)
     # … and `deadline` itself must be the call's own: the `deadline: Instant` parameter (never re-bound), or the
     # local `let deadline = Instant::now() + timeout;` computed from the call's `timeout` parameter before the
     # loop.  A deadline read from shared state (a field that outlives the call) is the pessimistic fact too.
@@ -191,7 +192,9 @@ def loop_order_(imp, method, pred_re):
                         and nb.find(binds[0]) < nb.find("loop"))
     clock = (mnow is not None and mnow.start() < pos["deadline"] and grp["deadline"] in ("now >= deadline", "deadline <= now") and arg_ok
              and len(re.findall(r"Instant::now\(\)", n)) == 1 and own_deadline
-             and not re.search(r"\bdeadline\s*=[^=]", n))
+             and not re.search(r"\bdeadline\s*=[^=]", n)
+             # (s) any other timer, slice, sleep or retry arm inside the loop is pessimistic too
+             and not re.search(r"sleep\s*\(|timed_out|Duration::|park_timeout|from_secs|from_millis|\.elapsed\(|\.min\(|\.max\(", n))
     return [k for k, _ in sorted(pos.items(), key=lambda kv: kv[1])], atomic, clock
 
 
